@@ -4,6 +4,7 @@ package rules
 // `go` edges cut, synthetic wrappers ($bound, $thunk) folded as transparent edges.
 
 import (
+	"fmt"
 	"go/token"
 	"go/types"
 	"sort"
@@ -433,4 +434,98 @@ func isEmptyValue(v ssa.Value) bool {
 		return okH && h == 0 && lowZero
 	}
 	return false
+}
+
+// counterGuarded checks the "bounded retry counter" idiom on an SCC:
+//   - a function G every cycle passes tests an integer field F of its receiver against a
+//     constant and, on the edge taken for large F, returns without an in-SCC call;
+//   - that test is passed by every path of G to an in-SCC call, and every in-SCC call of G is
+//     dominated by a store F = F + k (k >= 1);
+//   - nothing the cycle reaches stores F otherwise (no reset, no decrement).
+//
+// Then G is entered at most K+1 times on one stack.
+func (s *recSCC) counterGuarded(p *model.Prog) (bool, string) {
+	why := "no function of the cycle tests and increments a retry counter"
+	for _, g := range s.Funcs {
+		if len(g.Params) == 0 || len(g.Blocks) == 0 {
+			continue
+		}
+		if !s.acyclicWithout(func(e recEdge) bool { return e.From == g || e.To == g }) {
+			continue
+		}
+		recv := g.Params[0]
+		inSCC := func(in ssa.Instruction) bool {
+			for _, e := range s.Edges {
+				if e.Site == in && e.From == g {
+					return true
+				}
+			}
+			return false
+		}
+		for _, b := range g.Blocks {
+			iff, ok := b.Instrs[len(b.Instrs)-1].(*ssa.If)
+			if !ok {
+				continue
+			}
+			x, k, op, right, ok := constCmp(iff.Cond)
+			if !ok {
+				continue
+			}
+			fp, ok := loadPath(x)
+			if !ok || len(fp.Fields) != 1 || !sameRoot(fp.Base, recv) {
+				continue
+			}
+			f := fp.Fields[0]
+			big := int64(1) << 40
+			exceed := b.Succs[1]
+			if cmpAt(op, big, k, right) {
+				exceed = b.Succs[0]
+			}
+			if (model.PathQuery{FromBlock: exceed, Target: inSCC}).Find(g) != nil {
+				continue
+			}
+			if (model.PathQuery{Stop: func(in ssa.Instruction) bool { return in == ssa.Instruction(iff) }, Target: inSCC}).Find(g) != nil {
+				why = model.FnName(g) + " reaches the cycle without testing " + f.Name()
+				continue
+			}
+			isInc := func(in ssa.Instruction) bool {
+				st, ok := in.(*ssa.Store)
+				if !ok || model.FieldOf(st.Addr) != f || !sameRoot(storeBase(st), recv) {
+					return false
+				}
+				add, ok := st.Val.(*ssa.BinOp)
+				if !ok || add.Op != token.ADD || !model.IsLoadOfField(add.X, f) {
+					return false
+				}
+				c, isK := model.ConstInt(add.Y)
+				return isK && c >= 1
+			}
+			// every in-SCC call behind the test is preceded by an increment
+			start := b.Succs[0]
+			if exceed == start {
+				start = b.Succs[1]
+			}
+			if miss := (model.PathQuery{FromBlock: start, Stop: isInc, Target: inSCC}).Find(g); miss != nil {
+				why = model.FnName(g) + " calls back into the cycle at " + p.InstrPos(miss) + " without incrementing " + f.Name()
+				continue
+			}
+			// no other store to the counter anywhere the cycle reaches
+			other := ""
+			for _, fn := range s.Funcs {
+				for r := range p.Reachable([]*ssa.Function{fn}, true, inScopeFn) {
+					for _, st := range model.FieldStores(r, f) {
+						if !(r == g && isInc(st)) {
+							other = model.FnName(r)
+						}
+					}
+				}
+			}
+			if other != "" {
+				why = f.Name() + " is also assigned in " + other + ", which the cycle can reach"
+				continue
+			}
+			return true, fmt.Sprintf("%s returns once %s exceeds %d and increments it before every call back into the cycle; nothing the cycle reaches resets it", model.FnName(g), f.Name(), k)
+		}
+	}
+	return false, why
 }
